@@ -71,7 +71,7 @@ EXPECTED_PROBES = {
     'C03': ['spike_on_chunk_bound', 'spike_at_0', 'spike_at_last', 'window_exceeds_start',
             'window_exceeds_end', 'window_longer_than_recording', 'unsigned_spikes',
             'minus_one_channel', 'multi_chunk_export', 'cbin_export_cached', 'odd_window',
-            'reader_used_between_routes',
+            'reader_used_between_routes', 'export_of_no_spike',
             'store_lookup_permuted', 'float_factor', 'int_factor', 'store_query_with_minus_one'],
 }
 
@@ -371,6 +371,9 @@ def gen(rng, prop, tier):
                             'as': rng.choice(['int64', 'int32'])})
             elif r < 0.75:
                 ops.append({'op': 'export', 'cache': rng.random() < 0.5})
+                if rng.random() < 0.12:
+                    # an export of NO spike, to a fresh path or over an earlier export
+                    ops.append({'op': 'export_empty', 'over': rng.random() < 0.5})
             else:
                 ids = list(range(len(spikes)))
                 # store spike ids must be distinct: the store indexes spikes by id
@@ -593,7 +596,8 @@ def _in_envelope(got, mid, lo, hi, und):
 
 
 def _describe(a):
-    a = np.asarray(a)
+    if not isinstance(a, np.ndarray):
+        return {'not_an_array': '<%s>' % type(a).__name__}
     return {'shape': list(a.shape), 'dtype': str(a.dtype),
             'head': np.asarray(a).ravel()[:8].tolist()}
 
@@ -726,7 +730,7 @@ def _execute(plan, ctx, cfg, prop):
                 ctx.ev(step, 'read', h, 'NotImplementedError')
                 return
             raise
-        ctx.ev(step, 'read', h, np.asarray(got))
+        ctx.ev(step, 'read', h, got if isinstance(got, np.ndarray) else type(got).__name__)
         if env[h] is not None and isinstance(got, np.ndarray):
             with np.errstate(all='ignore'):
                 lo, hi, und = [_expected_read(x, item, cols) for x in env[h]]
@@ -952,6 +956,21 @@ def _execute(plan, ctx, cfg, prop):
                       lambda: {'step': step, 'spikes': [sc['spikes'][i] for i in ids], 'w': w,
                                'n': n, 'chans': op['chans'], 'got': _describe(got),
                                'expected': _describe(ref)})
+        elif k == 'export_empty':
+            ctx.op('export_empty')
+            prev = [i for i in range(step) if plan['ops'][i]['op'] == 'export']
+            path = root / ('wf_%s.npy' % (prev[-1] if (op['over'] and prev) else 'empty%d' % step))
+            ctx.real('export_waveforms', export_waveforms, path, reader,
+                     spikes[:0], chans[:0], n_samples_waveforms=w, sample2unit=factor)
+            try:
+                arr0 = np.load(path)
+            except Exception as e:
+                ctx.fail('exported-file-does-not-load', {'step': step, 'error': repr(e)[:300],
+                                                         'empty_export': True})
+            ctx.check(arr0.shape == (0, w, n_loc), 'exported-shape',
+                      lambda: {'got': list(arr0.shape), 'expected': [0, w, n_loc],
+                               'empty_export': True, 'over_an_earlier_export': bool(op['over'])})
+            ctx.probe('export_of_no_spike')
         elif k == 'touch':
             ctx.op('touch', changes_state=False)
             a, b, co = op['a'], op['b'], list(op['cols'])
